@@ -22,7 +22,7 @@ META = {
             "creates entries with vanilla defaults for unknown ids only, actions applied to known ids, updates for "
             "unknown ids ignored) and a reference proxy; TLC checks that the proxy's view equals the client's view "
             "after every operation and exports operation histories over API add (5 entry templates incl. a second "
-            "profile) / set attribute / removeAll and backend upsert (8 action sets x 8 entry lists) / remove for two "
+            "profile; also several entries in one Add call, the same id twice) / set attribute / removeAll and backend upsert (8 action sets x 8 entry lists) / remove for two "
             "uuids and viewer protocols 1.19.3, 1.21.2, 1.21.4 (exhaustive for 2 operations, simulated up to 6). Each "
             "history is replayed on gate's real tab list; every packet it sends is encoded by gate's codec and decoded "
             "by an independent vanilla-layout parser, and TLC applies the decoded packets to the client model and "
@@ -49,6 +49,9 @@ def cfg(versions, maxlen, emit=True):
 def opdesc(r):
     if r["op"] == "add":
         return "add(%s)" % r["how"]
+    if r["op"] == "addmany":
+        ids = [e["id"] for e in r.get("entries", [])]
+        return "add-many(%s%s)" % (r["how"], ",same-id-twice" if len(set(ids)) < len(ids) else "")
     if r["op"] == "set":
         return "set(%s)" % r["attr"]
     if r["op"] == "bupsert":
@@ -72,8 +75,11 @@ def run(ctx):
     states += r.distinct
     ctx.log("TabList.tla: %d states, %d histories of 2 operations, Match holds" % (r.distinct, len(pairs)))
     if ctx.quick:
-        rnd.shuffle(pairs)
-        pairs = pairs[:1000]
+        # always keep the multi-entry Add calls on a fresh list; a seeded sample of the rest
+        keep = [h for h in pairs if h["h"][0]["op"] == "addmany" and h["h"][1]["op"] == "removeAll"]
+        rest = [h for h in pairs if h not in keep]
+        rnd.shuffle(rest)
+        pairs = keep + rest[:1000]
     hists += pairs
     # simulated longer ones
     sim, cap, depth = ctx.pick((8, 500, 5), (300, 20000, 6))
@@ -131,7 +137,7 @@ def run(ctx):
     cov = {
         "samples": st["samples"][:1],
         "evaluations": st["calls"],
-        "distinct_nontrivial": sum(1 for h in hists if sum(1 for o in h["h"] if o["op"] in ("add", "bupsert")) >= 1
+        "distinct_nontrivial": sum(1 for h in hists if sum(1 for o in h["h"] if o["op"] in ("add", "addmany", "bupsert")) >= 1
                                    and len(h["h"]) >= 2),
         "rule": "history = (viewer protocol, operation sequence) exported by TLC and replayed on a fresh tab list; "
                 "non-trivial = at least two operations of which one creates entries",
